@@ -33,6 +33,7 @@ WITH THE SOFTWARE OR THE USE OR OTHER DEALINGS IN THE SOFTWARE.
 
 #include <string>
 #include <sstream>
+#include <climits>
 #include <cstdarg>
 #include <unistd.h>
 
@@ -1150,6 +1151,11 @@ int Interpret::interpPipe() {
         assert(buf[rd_head] == '\0');
         assert(rd_head < buf_sz);
         if (rd_head == buf_sz - 1) {
+            if (buf_sz > INT_MAX / 2) {
+                // doubling would overflow the int buffer size
+                notify_formatted(true, "pipe reader: command too long");
+                break;
+            }
             buf_sz *= 2;
             buf = (char*) realloc(buf, sizeof(char)*buf_sz);
         }
